@@ -51,6 +51,11 @@ def stepTree (t : TS) (cmd : String) (a : List (String × String)) : Option TS :
       let wm ← natArg a "wm"
       let cuts ← (arg a "cuts").bind parseCuts
       pure (Op.flush wm mem cuts)
+    | "flushcommit" => do
+      let ids ← (arg a "ids").bind parseNats
+      let wm ← natArg a "wm"
+      let cuts ← (arg a "cuts").bind parseCuts
+      pure (Op.flushCommit ids wm cuts)
     | "merge" => do
       let ids ← (arg a "ids").bind parseNats
       let dest ← natArg a "dest"
